@@ -273,6 +273,10 @@ def evaluate(plan, o):
         if r[0] > rev:
             v.append(viol("C14.K3" + sfx, r[0], "receive callback entered at t=%.6f, after close() returned at t=%.6f" % (r[1], rvt)))
             break
+    for i, xvt in o.recv_exit:
+        if xvt > rvt + 1e-9:
+            v.append(viol("C14.K3" + sfx, rev, "receive callback #%d was still running at t=%.6f, after close() returned at t=%.6f" % (i, xvt, rvt)))
+            break
     est = [c for c in o.conns if c["at"] <= rvt]
     if est:
         c = est[-1]
